@@ -149,7 +149,7 @@ int main(int argc, char **argv)
         }
       }
       cvm::main()->reset();
-    } else if (cmd == "DIV" || cmd == "SOLVE") {
+    } else if (cmd == "DIV" || cmd == "SOLVE" || cmd == "SOLVE2") {
       // DIV nd per(nd) nxg(nd) w(nd) has_samples smoothed min full npre nev (bin(nd) force(nd))*(npre+nev)
       // the first npre arrivals are accumulated without divergence update and followed by set_div
       // (data read from files at start-up); the next nev go through acc_force + update_div_neighbors.
@@ -182,6 +182,10 @@ int main(int argc, char **argv)
         int itmax = ni(); double tol = nf();
         double err = -1.0;
         int iter = G.pmf->integrate(itmax, tol, err, false);
+        if (cmd == "SOLVE2") {
+          // a second call on unchanged data, starting from the first solution (projected ABF, successive outputs)
+          iter = G.pmf->integrate(itmax, tol, err, false);
+        }
         os << G.pmf->nt << " " << iter << " "; hexout(os, err);
         os << " |";
         for (size_t i = 0; i < G.pmf->divergence.size(); i++) { os << " "; hexout(os, G.pmf->divergence[i]); }
